@@ -191,7 +191,7 @@ fn props() -> Vec<PropCfg> {
             level: "exploration",
             quick_runs: 300_000,
             thorough_runs: 5_000_000,
-            rule: "One evaluation = one seeded run of the `isolation` family: 2-3 scripted transfers (uploads incl. upload-then-download, or downloads incl. early negotiation; 2-5 blocks; scripted reply losses with retransmission and duplicated blocks) whose cache keys pairwise differ in exactly one of endpoint / method / path (segmentation [a,b] vs [a/b], prefixes, case, empty path vs one empty segment) are interleaved by a seeded scheduler (uniform or PCT-style priorities with change points; optionally split-phase: request, other clients' exchanges, then application + response), and each is re-run solo against a fresh handler; reply transcripts must be byte-identical. Non-trivial = runs with at least one switch between transfers; distinct = distinct (shape, server-step order) interleavings by 64-bit hash. coverage.interleavings gives reached/possible for the 2-transfer, non-split shapes (possible = binomial(n1+n2, n1)).",
+            rule: "One evaluation = one seeded run of the `isolation` family: 2-3 scripted transfers (uploads incl. upload-then-download, or downloads incl. early negotiation; 2-5 blocks; scripted reply losses with retransmission and duplicated blocks) whose cache keys pairwise differ in exactly one of endpoint / method / path (segmentation [a,b] vs [a/b], prefixes, case, empty path vs one empty segment) are interleaved by a seeded scheduler (uniform or PCT-style priorities with change points; optionally split-phase: request, other clients' exchanges, then application + response), and each is re-run solo against a fresh handler; reply transcripts must be byte-identical. Non-trivial = runs with at least one switch between transfers; distinct = distinct (shape, server-step order) interleavings by 64-bit hash. coverage.reached_vs_possible gives reached/possible for the 2-transfer, non-split shapes (possible = binomial(n1+n2, n1)).",
             assumptions: &[
                 "the property's quantifier says 'exhaustively enumerated'; this technique samples: exhaustive=false, reached/possible reported per shape",
                 "client behaviour is a function of its materialised script and of the replies it receives (no timers, no latencies in this family)",
@@ -502,6 +502,7 @@ fn write_replay(dir: &str, family: &str, profile: &str, seed: u64, run: u64, v: 
         .set("detail", J::s(v.detail.clone()))
         .set("family", J::s(family))
         .set("profile", J::s(profile))
+        .set("tier", J::s(if thorough() { "thorough" } else { "quick" }))
         .set("seed", J::u(seed))
         .set("run_index", J::u(run))
         .set("run_seed", J::u(run_seed(seed, run)))
@@ -523,6 +524,7 @@ fn cmd_run(args: &[String]) -> Result<i32, String> {
     let pc = all.iter().find(|p| p.id == prop_id).ok_or_else(|| format!("no check for property {}", prop_id))?;
     let tier = arg(args, "--tier").map(|s| s.to_string()).or_else(|| std::env::var("VERIF_TIER").ok()).unwrap_or_else(|| "quick".into());
     let tier = if tier == "thorough" { "thorough" } else { "quick" };
+    set_thorough(tier == "thorough");
     let seed: u64 = match arg(args, "--seed").map(|s| s.to_string()).or_else(|| std::env::var("VERIF_SEED").ok()) {
         Some(s) => s.trim().parse().map_err(|_| format!("bad seed {:?}", s))?,
         None => DEFAULT_SEED,
@@ -632,7 +634,10 @@ fn cmd_run(args: &[String]) -> Result<i32, String> {
         let (mut reached_all, mut possible_all) = (0u64, 0u64);
         for (g, set) in &agg.groups {
             let nums: Vec<u64> = g.split(|c: char| !c.is_ascii_digit()).filter(|x| !x.is_empty()).filter_map(|x| x.parse().ok()).collect();
-            let possible = if nums.len() >= 3 {
+            let possible = if g.starts_with("direct histories of depth") && nums.len() == 1 {
+                // limit (3) x per step: kind 4 x endpoint 2 x token 2 x path 3 x mid 2 x con 2
+                3u64.saturating_mul(192u64.saturating_pow(nums[0] as u32))
+            } else if nums.len() >= 3 {
                 let (a, b) = (nums[1], nums[2]);
                 let mut c: u128 = 1;
                 for k in 0..a.min(b) {
@@ -646,7 +651,7 @@ fn cmd_run(args: &[String]) -> Result<i32, String> {
             possible_all += possible;
             arr.push(J::obj().set("shape", J::s(g.clone())).set("reached", J::u(set.len() as u64)).set("possible", J::u(possible)));
         }
-        cov.put("interleavings", J::obj().set("reached", J::u(reached_all)).set("possible", J::u(possible_all)).set("per_shape", J::Arr(arr)));
+        cov.put("reached_vs_possible", J::obj().set("reached", J::u(reached_all)).set("possible", J::u(possible_all)).set("per_shape", J::Arr(arr)));
     }
     let mut evaluations = agg.units;
     let mut violations = agg.new_viol.len() as u64;
@@ -718,6 +723,7 @@ fn cmd_replay(args: &[String]) -> Result<i32, String> {
     let prop = j.get("property").and_then(|x| x.as_str()).ok_or("no property")?.to_string();
     let clause = j.get("clause").and_then(|x| x.as_str()).ok_or("no clause")?.to_string();
     let sig = j.get("signature").and_then(|x| x.as_str()).unwrap_or(&clause).to_string();
+    set_thorough(j.get("tier").and_then(|x| x.as_str()) == Some("thorough"));
     let list: Vec<u64> = j.get("choices").and_then(|x| x.as_arr()).ok_or("no choices")?.iter().filter_map(|x| x.as_u64()).collect();
     let mut ch = Ch::replay(list);
     let o = guard(|| run_family(family, &mut ch, true)).map_err(|e| format!("harness panic: {}", e))??;
